@@ -364,7 +364,7 @@ func RunSched(line string) (ans string) {
 				}
 				continue
 			}
-			waitFor(func() bool { return noteWritten(c) || isDone(c) }, fmt.Sprintf("request of call %d never written", c.idx))
+			waitFor(func() bool { return noteWritten(c) || (isDone(c) && (noteWritten(c) || true)) }, fmt.Sprintf("request of call %d never written", c.idx))
 			if !c.written {
 				return fmt.Sprintf("call %d returned without writing its request:%v", c.idx, c.res.Err)
 			}
@@ -393,7 +393,7 @@ func RunSched(line string) (ans string) {
 					return fmt.Sprintf("call %d returned instead of waiting for the write slot:%v", i, c.res.Err)
 				}
 			default:
-				waitFor(func() bool { return noteWritten(c) || isDone(c) }, fmt.Sprintf("request of call %d never written", i))
+				waitFor(func() bool { return noteWritten(c) || (isDone(c) && (noteWritten(c) || true)) }, fmt.Sprintf("request of call %d never written", i))
 				if !c.written {
 					return fmt.Sprintf("call %d returned without writing its request:%v", i, c.res.Err)
 				}
@@ -490,7 +490,7 @@ func RunSched(line string) (ans string) {
 			for _, q := range calls {
 				if q.conn == c.conn && q.queued {
 					q := q
-					waitFor(func() bool { return noteWritten(q) || isDone(q) }, fmt.Sprintf("call %d, which waited for the write slot, did not write after the held Write of call %d returned", q.idx, i))
+					waitFor(func() bool { return noteWritten(q) || (isDone(q) && (noteWritten(q) || true)) }, fmt.Sprintf("call %d, which waited for the write slot, did not write after the held Write of call %d returned", q.idx, i))
 					if !q.written {
 						return fmt.Sprintf("call %d returned without writing its request:%v", q.idx, q.res.Err)
 					}
